@@ -9,10 +9,10 @@ package main
 //      which it is non-nil (no leak on the filtered path).
 
 import (
-	"sort"
 	"fmt"
 	"go/token"
 	"go/types"
+	"sort"
 
 	"golang.org/x/tools/go/ssa"
 )
